@@ -57,6 +57,7 @@ import EinoV.Model.C05Streams
 import EinoV.Proofs.C05Streams
 import EinoV.Gen.FactsC05
 import EinoV.Expected.C05
+import EinoV.Proofs.TransCp
 
 namespace EinoV.C05
 open EinoV.Engine EinoV.Interrupt EinoV.Gen
@@ -832,5 +833,62 @@ example : mergeE [emptyV, [("a", "1")]] = some [("a", "1")] := by decide
 example : mergeE [emptyV, emptyV] = some emptyV := by decide
 
 end Streams
+
+/-! ### Restoring channels from a checkpoint, translated (Gen/TransCp.lean; gotrans phase 8)
+
+  `(*dagChannel).load`, `(*pregelChannel).load` and `(*channelManager).loadChannels` are re-translated from
+  /repo on every run of this property (together with the channel units they stand on: TransC02, TransC01,
+  TransMgr).  `c.(*dagChannel)` on a value of the closed interface sum `channel` is a match on the constructor.
+  The theorems say that `loadChannels` computes the model's `loadChans` — what `restore` (Model/C05.lean)
+  installs in the fresh manager of a resumed run: every channel of the manager that the checkpoint has is
+  replaced by the checkpoint's, a key missing from the checkpoint keeps its channel, keys of the checkpoint
+  the manager does not have are ignored — with the frame conditions of the translated manager (`Frame`) and
+  `ChansOK` kept; a channel of the other kind is the load error.
+  Aliasing: the Go `load` assigns the argument's maps to the receiver's fields, so the live channel shares
+  its maps with the checkpoint's channel.  Under maps-as-values this is invisible; it would become visible if
+  the checkpoint were used again after the run has mutated a restored channel (trusted base, DESIGN §6). -/
+section TranslatedLoad
+open EinoV.GoSem EinoV.TransMgr EinoV.TransCp EinoV.Gen.TransMgr EinoV.Gen.TransC02 EinoV.Gen.TransC01 EinoV.Gen.TransCp
+variable {V : Type} [Inhabited V]
+
+theorem translated_load_source_is_current : EinoV.Gen.FactsC05.checkpointLoadTranslated = true := by decide
+
+/-- `load` takes a channel of the same kind over entirely; a channel of the other kind is the error -/
+theorem translated_channel_load_refines (ext : Ext V) (mext : MgrExt V) (x y : dagChannel V)
+    (p q : pregelChannel V) :
+    dagChannel_load ext mext x (.of_dagChannel y) = (y, none) ∧
+    pregelChannel_load ext mext p (.of_pregelChannel q) = (q, none) ∧
+    dagChannel_load ext mext x (.of_pregelChannel q)
+      = (x, some (GoErr.mk "load dag channel fail, got %T, want *dagChannel")) ∧
+    pregelChannel_load ext mext p (.of_dagChannel y)
+      = (p, some (GoErr.mk "load pregel channel fail, got %T, want *pregelChannel")) :=
+  ⟨dag_load_dag ext mext x y, pregel_load_pregel ext mext p q, dag_load_pregel ext mext x q,
+   pregel_load_dag ext mext p y⟩
+
+/-- **`loadChannels` refines `loadChans`** -/
+theorem translated_loadChannels_refines (ext : Ext V) (mext : MgrExt V) (dag : Bool) (c : channelManager V)
+    (cp : GoMap (channel V)) (hok : ChansOK dag c.channels) (hcp : CpOK dag cp) :
+    ∃ c', channelManager_loadChannels ext mext c cp = .ret (c', none) ∧
+      toChans c'.channels = EinoV.Interrupt.loadChans (toChans c.channels) (toChans cp) ∧
+      Frame c c' ∧ ChansOK dag c'.channels :=
+  loadChannels_refines ext mext dag c cp hok hcp
+
+/-- a channel of the other kind under a key of the manager: the error "load channel[%s] fail" (never a panic) -/
+theorem translated_loadChannels_kind_mismatch (ext : Ext V) (mext : MgrExt V) (c : channelManager V)
+    (cp : GoMap (channel V)) (hnd : TransDag.KeysNodup c.channels) (hbad : c.channels.any (mismatch cp) = true) :
+    ∃ c', channelManager_loadChannels ext mext c cp = .ret (c', some (GoErr.mk "load channel[%s] fail: %w")) :=
+  loadChannels_kind_mismatch ext mext c cp hnd hbad
+
+/-- non-vacuity: a manager with channels a, b; the checkpoint has b (with a value) and an unknown key z:
+    b is replaced, a kept, z ignored -/
+example : (match channelManager_loadChannels (V := Nat) { zeroValue := 0, emptyStream := 0, mergeValues := fun _ => (0, none) }
+      { edgeHandle := fun _ _ v _ => (v, none), preNodeHandle := fun _ v _ => (v, none) }
+      { isStream := false, channels := [("a", .of_pregelChannel { Values := [] }), ("b", .of_pregelChannel { Values := [] })],
+        successors := [], dataPredecessors := [], controlPredecessors := [] }
+      [("b", .of_pregelChannel { Values := [("x", 7)] }), ("z", .of_pregelChannel { Values := [("y", 9)] })] with
+    | .ret r => (toChans r.1.channels).map (fun p => (p.1, p.2.values))
+    | _ => []) = [("a", []), ("b", [("x", 7)])] := by decide
+
+end TranslatedLoad
 
 end EinoV.C05
